@@ -23,7 +23,7 @@ def FLOORS(tier):
     q = tier == "quick"
     f = {"temperature-range-calls": 600 if q else 20000, "temperature:no-variables": 40, "temperature:zero-prob": 80,
          "temperature:equal-probs": 40, "constant-model": 60, "raw-repeated-labels": 40, "real-coefficients": 150,
-         "temperature:stale-model": 20}
+         "temperature:stale-model": 20, "second-look-checks": 500 if q else 20000, "second-look:cancel-all": 40, "second-look:clear": 40}
     for fn in FN:
         f["fn:" + fn] = 300 if q else 15000
     return f
@@ -85,6 +85,7 @@ def case(ctx, rng, idx):
             return
     if len(order) >= 2 and sum(1 for k in p.d if k) >= 2:
         ctx.nontrivial((fn, tn, sorted(snap.items(), key=repr)))
+    second_look(ctx, rng, m, tn, kind, getattr(L.utils, fn), fn, w)
     ctx.sample({"function": fn, "type": tn, "terms": snap, "bounds": [lo, hi], "true": [tmin, tmax]}, limit=3)
 
 
@@ -147,3 +148,44 @@ def temperature(ctx, rng):
         return
     if len(p.vars()) >= 2:
         ctx.nontrivial(("temp", tn, sorted(snap.items(), key=repr), sorted(kw.items())))
+    second_look(ctx, rng, m, tn, kind, lambda mm: L.sim.anneal_temperature_range(mm, **kw), "anneal_temperature_range", w)
+
+
+def second_look(ctx, rng, m, tn, kind, f, name, w):
+    """history dimension: edit the same object in place and ask again -- the answer must be the one a freshly built equal
+    model gets (and (0, 0) / the constant once no variable is left)"""
+    if tn == "dict" or rng.random() < 0.4:
+        return
+    edit = rng.choice(["cancel-all", "clear", "scale", "add-term", "cancel-one"])
+    try:
+        if edit == "cancel-all":
+            for k in list(m):
+                if k:
+                    m[k] -= m[k]
+        elif edit == "clear":
+            m.clear()
+        elif edit == "scale":
+            m *= 4
+        elif edit == "add-term":
+            vs = sorted({x for k in m for x in k}, key=repr)
+            if not vs:
+                return
+            m[(vs[0],)] += 16
+        else:
+            ks = [k for k in m if k]
+            if not ks:
+                return
+            m[rng.choice(ks)] = 0
+    except KeyError:
+        return
+    ctx.cat("second-look:" + edit)
+    w2 = dict(w, edit=edit, terms_after=dict(m))
+    try:
+        got = f(m)
+        fresh = f(dict(m))
+    except Exception as e:   # noqa
+        ctx.violation("%s:second-look:raises-%s" % (name, type(e).__name__), "%s raised %r after in-place %s" % (name, e, edit), w2)
+        return
+    ctx.count("second-look-checks")
+    if tuple(got) != tuple(fresh):
+        ctx.violation("%s:stale-after-in-place-edit" % name, "after %s the same object gives %r, an equal fresh model gives %r" % (edit, got, fresh), w2)
